@@ -135,8 +135,16 @@ def pmap(fn, items, procs=None):
     if len(items) < 8 or procs <= 1:
         return [fn(x) for x in items]
     ctx = multiprocessing.get_context('fork')
-    with ctx.Pool(procs) as pool:
-        return pool.map(fn, items, chunksize=max(1, len(items) // (procs * 8)))
+    # the workers are forks of a parent that may hold gigabytes of earlier results: without freezing, the first garbage
+    # collection in each worker writes to the header of every inherited object and copies the whole heap 16 times
+    import gc
+    gc.collect()
+    gc.freeze()
+    try:
+        with ctx.Pool(procs) as pool:
+            return pool.map(fn, items, chunksize=max(1, len(items) // (procs * 8)))
+    finally:
+        gc.unfreeze()
 
 
 # ---------------- findings ----------------
